@@ -1331,6 +1331,15 @@ func gridLayout(context *layoutContext, box_ Box, bottomSpace pr.Float, skipStac
 	for c := len(gridAreas); c < implicitY2; c++ {
 		rows = append(rows, autoRows.Next(), pr.GridNames{})
 	}
+	// The lists of tracks now start with the implicit tracks added before
+	// the explicit grid: index the positions of the items from there.
+	if implicitX1 != 0 || implicitY1 != 0 {
+		for child, position := range childrenPositions {
+			x, y, width, height := position.unpack()
+			childrenPositions[child] = rect{x - implicitX1, y - implicitY1, width, height}
+		}
+		implicitX1, implicitY1 = 0, 0
+	}
 
 	// 2. Find the size of the grid container.
 
